@@ -113,6 +113,36 @@ func c01Structured() []kindDef {
 			return &dialect.Schema{AllOf: []*dialect.Schema{{Ref: "Pet"}, {Ref: "Dog"}}}
 		}, comp: []dialect.Prop{pet, {Name: "Dog", Schema: &dialect.Schema{Type: "object", Props: []dialect.Prop{{Name: "bark", Schema: &dialect.Schema{Type: "boolean"}}}}}}},
 	}
+	// oneOf: without discriminator, with one (no mapping / full refs / bare names / a key restating a schema's name /
+	// a key equal to ANOTHER schema's name / a target that is not a variant), defined in place, with primitive variants
+	varA := dialect.Prop{Name: "VarA", Schema: &dialect.Schema{Type: "object", Props: []dialect.Prop{{Name: "kind", Schema: &dialect.Schema{Type: "string"}}, {Name: "a", Schema: &dialect.Schema{Type: "string"}}}, Required: []string{"kind", "a"}}}
+	varB := dialect.Prop{Name: "VarB", Schema: &dialect.Schema{Type: "object", Props: []dialect.Prop{{Name: "kind", Schema: &dialect.Schema{Type: "string"}}, {Name: "b", Schema: &dialect.Schema{Type: "integer"}}}, Required: []string{"kind", "b"}}}
+	oneOfAB := func(disc string, mapping map[string]string) *dialect.Schema {
+		return &dialect.Schema{OneOf: []*dialect.Schema{{Ref: "VarA"}, {Ref: "VarB"}}, DiscProp: disc, DiscMap: mapping}
+	}
+	for _, oc := range []struct {
+		name    string
+		disc    string
+		mapping map[string]string
+	}{
+		{"nodisc", "", nil},
+		{"disc-nomap", "kind", nil},
+		{"disc-map", "kind", map[string]string{"a": "VarA", "b": "VarB", "b2": "VarB"}},
+		{"disc-map-bare", "kind", map[string]string{"a": "=VarA", "b": "=VarB"}},
+		{"disc-map-restates", "kind", map[string]string{"VarA": "VarA"}},
+		{"disc-map-other-name", "kind", map[string]string{"VarB": "VarA"}},
+		{"disc-map-nonvariant", "kind", map[string]string{"a": "Pet", "b": "VarB", "c": "VarA"}},
+		{"disc-map-nonvariant-bare", "kind", map[string]string{"a": "=Pet", "b": "VarB", "c": "VarA"}},
+	} {
+		oc := oc
+		one := dialect.Prop{Name: "One", Schema: oneOfAB(oc.disc, oc.mapping)}
+		ks = append(ks,
+			kindDef{name: "oneof-ref-" + oc.name, mk: func() *dialect.Schema { return &dialect.Schema{Ref: "One"} }, comp: []dialect.Prop{pet, varA, varB, one}},
+			kindDef{name: "oneof-inline-" + oc.name, mk: func() *dialect.Schema { return oneOfAB(oc.disc, oc.mapping) }, comp: []dialect.Prop{pet, varA, varB}})
+	}
+	ks = append(ks, kindDef{name: "oneof-prims", mk: func() *dialect.Schema {
+		return &dialect.Schema{OneOf: []*dialect.Schema{{Type: "string"}, {Type: "integer"}, objAB()}}
+	}})
 	// every component kind again, reached through components that are only a $ref (one step and two)
 	for _, k := range ks {
 		k := k
